@@ -25,7 +25,7 @@ theorem shutdown_fails_all_once (s : St) (op : Op) (hinv : Inv s)
     (hf : connFailure s op = true) :
     (stepOut s op).2.eff.dels = s.tagMap.map (fun p => (p.2, Resp.cerr)) ∧
     (stepOut s op).1.tagMap = [] ∧ (stepOut s op).1.sendQ = [] := by
-  obtain ⟨hc, s1, hc1, ht1, h1, _, h3⟩ := failure_is_shutdown s op hinv hf
+  obtain ⟨hc, s1, hc1, ht1, h1, _, h3⟩ := failure_is_shutdown s op hinv.1 hf
   have hc1' : s1.cstate ≠ .closed := by rw [hc1]; exact hc
   rw [h1, h3, shutdown_eq s1 true hc1', ht1]
   exact ⟨rfl, rfl, rfl⟩
@@ -39,7 +39,7 @@ theorem closed_and_signalled (s : St) (op : Op) (hinv : Inv s)
     (stepOut s op).1.sl = .dead ∧ (stepOut s op).1.rl = .dead ∧
     (stepOut s op).1.pingLoop = false ∧ (stepOut s op).1.pingWait = false ∧
     (stepOut s op).1.openRes ≠ .pending := by
-  obtain ⟨hc, s1, hc1, ht1, h1, h2, _⟩ := failure_is_shutdown s op hinv hf
+  obtain ⟨hc, s1, hc1, ht1, h1, h2, _⟩ := failure_is_shutdown s op hinv.1 hf
   have hc1' : s1.cstate ≠ .closed := by rw [hc1]; exact hc
   rw [h1, h2, shutdown_eq s1 true hc1']
   refine ⟨rfl, rfl, rfl, rfl, rfl, rfl, ?_⟩
@@ -59,7 +59,7 @@ theorem ping_silence (s : St) (hinv : Inv s) (hpw : s.pingWait = true) :
   have hf : connFailure s .pingSilence = true := by simpa [connFailure] using hpw
   have h1 := shutdown_fails_all_once s .pingSilence hinv hf
   have h2 := closed_and_signalled s .pingSilence hinv hf
-  exact ⟨(failure_is_shutdown s _ hinv hf).1, h1.1, h1.2.1, h2.1, h2.2.1⟩
+  exact ⟨(failure_is_shutdown s _ hinv.1 hf).1, h1.1, h1.2.1, h2.1, h2.2.1⟩
 
 /-- the ping loop of an open transport arms the helper: when its sleep ends and no ping is
     outstanding, a ping is queued for transmission and the helper waits for the Rping. -/
@@ -98,6 +98,83 @@ theorem responses_at_most_once (ops : List Op) (h : comp.wf () ops = true) (id :
   have h2 := issued_le id ops St.init [] h
   simp at h1 h2
   exact Nat.le_trans h1 h2
+
+/-- a `_ProcessReply` greenlet that was spawned before `_Shutdown` and runs after it (the frame
+    had been read, the next read failed before the receive loop yielded) finds an empty tag
+    map and no outstanding ping: whatever the frames, nothing is handed to any request and
+    the closed transport does not change -/
+theorem reply_after_shutdown_dropped (s : St) (fs : List Frame) (hinv : Inv0 s)
+    (hc : s.cstate = .closed) : dispatchGo fs s = (s, []) :=
+  dispatchGo_closed fs s hinv hc
+
+/-- a frame and a failing read right behind it, without a yield in between: the `_Shutdown`
+    comes first, every request in the tag map is handed exactly one `ClientError` — also the
+    one whose reply had already been read — and the reply read before the failure is handed to
+    nobody; no `_ProcessReply` greenlet is left behind -/
+theorem burst_fault_once (s : St) (rs : List (IOOut × Frame)) (hinv : Inv s) (hrl : s.rl ≠ .dead)
+    (hex : ∃ r ∈ rs, r.1 ≠ IOOut.ok) :
+    (stepOut s (.burst rs)).2.eff.dels = s.tagMap.map (fun p => (p.2, Resp.cerr)) ∧
+    (stepOut s (.burst rs)).2.eff.faults = 1 ∧
+    (stepOut s (.burst rs)).1.cstate = .closed ∧ (stepOut s (.burst rs)).1.tagMap = [] ∧
+    (stepOut s (.burst rs)).1.pending = [] := by
+  have hf : connFailure s (.burst rs) = true := by
+    obtain ⟨r, hr, hne⟩ := hex
+    simp only [connFailure, Bool.and_eq_true, decide_eq_true_eq, List.any_eq_true]
+    exact ⟨by simpa using hrl, r, hr, by simpa using hne⟩
+  have h1 := shutdown_fails_all_once s _ hinv hf
+  have h2 := closed_and_signalled s _ hinv hf
+  exact ⟨h1.1, h2.2.1, h2.1, h1.2.1, step_pending s _ hinv.2⟩
+
+theorem runOps_append (s : St) (pre post : List Op) :
+    runOps s (pre ++ post) = runOps (runOps s pre) post := by
+  simp [runOps, List.foldl_append]
+
+theorem trace_append : ∀ (pre : List Op) (s : St) (post : List Op),
+    comp.trace () s (pre ++ post) = comp.trace () s pre ++ comp.trace () (runOps s pre) post := by
+  intro pre
+  induction pre with
+  | nil => intro s post; rfl
+  | cons op pre ih =>
+    intro s post
+    simp only [List.cons_append, TComp.trace, comp, step]
+    have := ih (stepOut s op).1 post
+    simp only [comp] at this
+    rw [this]
+    rfl
+
+theorem responsesTo_append (id : Nat) (h1 h2 : List (Op × Obs)) :
+    responsesTo id (h1 ++ h2) = responsesTo id h1 + responsesTo id h2 := by
+  simp [responsesTo]
+
+/-- **exactly once, over whole histories.**  Whatever happened before and whatever happens
+    afterwards: a request that is in flight when the connection fails (refused connect, write
+    error, read error or end-of-stream — alone or right behind frames that were read but not yet
+    dispatched —, ping silence) is handed a `ClientError` in that very operation, and that is the
+    only response it is handed in the whole history. -/
+theorem inflight_failed_exactly_once (pre : List Op) (op : Op) (post : List Op)
+    (h : comp.wf () (pre ++ op :: post) = true)
+    (hf : connFailure (runOps St.init pre) op = true) (tag id : Nat)
+    (hin : (tag, id) ∈ (runOps St.init pre).tagMap) :
+    (id, Resp.cerr) ∈ (stepOut (runOps St.init pre) op).2.eff.dels ∧
+    responsesTo id (comp.modelTrace () (pre ++ op :: post)) = 1 := by
+  have hd := (shutdown_fails_all_once _ op (inv_reachable pre) hf).1
+  have hmem : (id, Resp.cerr) ∈ (stepOut (runOps St.init pre) op).2.eff.dels := by
+    rw [hd]; exact List.mem_map.mpr ⟨(tag, id), hin, rfl⟩
+  refine ⟨hmem, ?_⟩
+  have hle := responses_at_most_once _ h id
+  have hge : 1 ≤ responsesTo id (comp.modelTrace () (pre ++ op :: post)) := by
+    have hpos : 0 < (stepOut (runOps St.init pre) op).2.eff.dels.countP (fun d => d.1 == id) :=
+      List.countP_pos_iff.mpr ⟨_, hmem, by simp⟩
+    have htr : comp.modelTrace () (pre ++ op :: post) =
+        comp.trace () St.init pre ++ comp.trace () (runOps St.init pre) (op :: post) :=
+      trace_append pre St.init (op :: post)
+    rw [htr, responsesTo_append]
+    have : responsesTo id (comp.trace () (runOps St.init pre) (op :: post)) =
+        (stepOut (runOps St.init pre) op).2.eff.dels.countP (fun d => d.1 == id) +
+          responsesTo id (comp.trace () (stepOut (runOps St.init pre) op).1 post) := by
+      simp [TComp.trace, comp, step, responsesTo, obsOf]
+    omega
+  omega
 
 end Scales.MuxT
 
